@@ -225,6 +225,9 @@ def run(tier):
         elif (v["res"] == "text") != bool(b[1].get("ok")):
             C.violation({"kind": "recursion-outcome", "graph": v["g"], "entry": v["entry"]}, "call graph %s from %s: engine %s, specification %s" % (
                 v["g"], v["entry"], "renders" if b[1].get("ok") else "fails (%s)" % (b[1].get("msg") or b[1].get("disp", ""))[:80], v["res"]), {"job": job, "result": b})
+    # ---- operand sites (Sites.tla): every producer of an operand x every consumer, in eight hosts, optimiser on and off
+    import sites
+    sites.run(C, "C07", list(sites.HOSTS))
     C.assumptions += ["abstract contexts over-approximate: every name load / call result is any of 18 abstract values; loops run 0, 1 or 2+ times",
                       "calls into blocks / super / components / includes are verified modularly (each chunk from an empty stack)",
                       "panics on values outside the weird-value universe are not excluded"]
